@@ -152,6 +152,9 @@ pub struct WorkerReport {
     pub violations: Vec<(Violation, Case)>,
     /// known findings hit: rule -> count
     pub known_hits: BTreeMap<String, u64>,
+    /// unknown violations by rule + tags (triage aid)
+    #[serde(default)]
+    pub viol_classes: BTreeMap<String, u64>,
     pub stopped_early: bool,
     pub wall_s: f64,
 }
@@ -263,8 +266,19 @@ pub fn worker(a: &WorkerArgs) -> i32 {
                 }
                 if let Some(k) = match_known(&known, &a.prop, v) {
                     *rep.known_hits.entry(k.rule.clone()).or_insert(0) += 1;
-                } else if seen_rules.insert(v.rule.clone()) && rep.violations.len() < 4 {
-                    rep.violations.push((v.clone(), case.clone()));
+                } else {
+                    if let Ok(d) = std::env::var("KSIM_DUMP_FAILS") {
+                        let _ = std::fs::create_dir_all(&d);
+                        let _ = std::fs::write(format!("{d}/{}-{:016x}.json", v.rule.replace([':', ' ', '/'], "_").chars().take(40).collect::<String>(), case.seed), serde_json::to_string(&case).unwrap());
+                    }
+                    *rep.viol_classes.entry(format!("{} {:?}", v.rule, v.tags)).or_insert(0) += 1;
+                    let smaller = rep.violations.iter().position(|(v2, c2)| v2.rule == v.rule && c2.ops.len() + c2.cfg.len() / 8 > case.ops.len() + case.cfg.len() / 8);
+                    if let Some(pos) = smaller {
+                        // prefer the smallest failing case of each class as the starting point
+                        rep.violations[pos] = (v.clone(), case.clone());
+                    } else if seen_rules.insert(v.rule.clone()) && rep.violations.len() < 4 {
+                        rep.violations.push((v.clone(), case.clone()));
+                    }
                 }
             }
         }
@@ -834,12 +848,20 @@ pub fn run_main(a: &RunArgs) -> i32 {
             for (k, v) in &r.known_hits {
                 *total.known_hits.entry(k.clone()).or_insert(0) += v;
             }
+            for (k, v) in &r.viol_classes {
+                *total.viol_classes.entry(k.clone()).or_insert(0) += v;
+            }
             sigs.extend(r.sigs.iter().copied());
             if total.samples.len() < 4 {
                 total.samples.extend(r.samples.iter().cloned());
             }
             for (v, c) in &r.violations {
-                if !violations.iter().any(|(v2, _)| v2.rule == v.rule) {
+                if let Some(pos) = violations.iter().position(|(v2, _)| v2.rule == v.rule) {
+                    let c2 = &violations[pos].1;
+                    if c2.ops.len() + c2.cfg.len() / 8 > c.ops.len() + c.cfg.len() / 8 {
+                        violations[pos] = (v.clone(), c.clone());
+                    }
+                } else {
                     violations.push((v.clone(), c.clone()));
                 }
             }
@@ -871,6 +893,9 @@ pub fn run_main(a: &RunArgs) -> i32 {
                 harness_error = true;
             }
         }
+    }
+    for (k, n) in &total.viol_classes {
+        println!("violation-class: {n:6} x {k}");
     }
     // known findings
     let mut printed: HashSet<String> = HashSet::new();
